@@ -51,7 +51,10 @@ func alphabet() []treefs.Op {
 	}
 	a = append(a, treefs.Op{Kind: "CopyFile", P: "f", Q: "x2"}, treefs.Op{Kind: "CopyFile", P: "d/f", Q: "d/h"},
 		treefs.Op{Kind: "CopyDirectory", P: "d", Q: "y"}, treefs.Op{Kind: "CopyDirectory", P: "d/e", Q: "e2"},
-		treefs.Op{Kind: "Copy", P: "d", Q: "z"}, treefs.Op{Kind: "Copy", P: "f", Q: "d/k"})
+		treefs.Op{Kind: "Copy", P: "d", Q: "z"}, treefs.Op{Kind: "Copy", P: "f", Q: "d/k"},
+		// copies ONTO paths that other operations write (same and different content length)
+		treefs.Op{Kind: "CopyFile", P: "f", Q: "d/f"}, treefs.Op{Kind: "CopyFile", P: "d/f", Q: "f"}, treefs.Op{Kind: "Copy", P: "d/g", Q: "x/y"})
+	w("f", "N1-longer")
 	a = append(a, treefs.Op{Kind: "Commit"})
 	return a
 }
@@ -128,11 +131,11 @@ func modelOf(r0 map[string]string) *treefs.Node {
 
 // Case is one explored history.
 type Case struct {
-	Remote  int         `json:"remote"`
-	Disk    bool        `json:"disk"`
-	History []treefs.Op `json:"history"`
-	FailAt  int         `json:"fail_commit_call,omitempty"`
-	MapSched []int      `json:"map_order_choices,omitempty"`
+	Remote   int         `json:"remote"`
+	Disk     bool        `json:"disk"`
+	History  []treefs.Op `json:"history"`
+	FailAt   int         `json:"fail_commit_call,omitempty"`
+	MapSched []int       `json:"map_order_choices,omitempty"`
 }
 
 // Finding of one oracle.
@@ -141,10 +144,10 @@ type Finding struct {
 }
 
 type runOut struct {
-	findings []Finding
-	skipped  bool // history contains an op whose outcome class is unspecified at that point
+	findings    []Finding
+	skipped     bool // history contains an op whose outcome class is unspecified at that point
 	commitCalls int
-	commitErr string
+	commitErr   string
 }
 
 var readPool = []string{"f", "d", "d/f", "d/g", "d/h", "d/k", "e", "d/e", "d/e/f", "d/e/h", "x", "x/y", "x2", "y", "y/f", "z", "e2", "."}
@@ -238,23 +241,42 @@ func execute(cs Case, wantC06, wantC07 bool) runOut {
 		}
 		// a cache operation
 		e := treefs.Apply(ov, op)
+		if over := fileOverFile(ov, op); over != nil && e.Class == treefs.Unspecified {
+			// a file copied onto an existing file: whether that is accepted is unspecified (the
+			// backends differ), but IF the cache reports success the destination is a copy of the
+			// source from then on - in every read and, after Commit, on the remote
+			r := fsx.Exec(w.cache, op)
+			if r.Panic != "" {
+				add("C06", "op-panic/"+op.Kind, "cache operations do not panic", r.Panic)
+				return out
+			}
+			if r.Err == "" {
+				ov = over
+				dirty = true
+			}
+			e = treefs.Expect{Class: treefs.MustOK}
+			goto judged
+		}
 		if e.Class != treefs.MustOK && e.Class != treefs.MustFail {
 			out.skipped = true
 			return out
 		}
-		r := fsx.Exec(w.cache, op)
-		if r.Panic != "" {
-			add("C06", "op-panic/"+op.Kind, "cache operations do not panic", r.Panic)
-			return out
+		{
+			r := fsx.Exec(w.cache, op)
+			if r.Panic != "" {
+				add("C06", "op-panic/"+op.Kind, "cache operations do not panic", r.Panic)
+				return out
+			}
+			if r.Err == "" && e.Class == treefs.MustOK && e.After != nil {
+				ov = e.After
+				dirty = true
+			} else if r.Err == "" && e.Class == treefs.MustFail {
+				// reported success for something the remote itself would refuse: applying it to the
+				// remote changes nothing; the overlay is unchanged as well
+				dirty = true
+			}
 		}
-		if r.Err == "" && e.Class == treefs.MustOK && e.After != nil {
-			ov = e.After
-			dirty = true
-		} else if r.Err == "" && e.Class == treefs.MustFail {
-			// reported success for something the remote itself would refuse: applying it to the
-			// remote changes nothing; the overlay is unchanged as well
-			dirty = true
-		}
+	judged:
 		if i != len(cs.History)-1 {
 			continue // every prefix is enumerated as a history of its own: check only at the end
 		}
@@ -281,6 +303,26 @@ func execute(cs Case, wantC06, wantC07 bool) runOut {
 		}
 	}
 	return out
+}
+
+// fileOverFile returns the overlay after "copy file P onto the existing file Q" (nil if op is
+// not of that shape on t).
+func fileOverFile(t *treefs.Node, op treefs.Op) *treefs.Node {
+	if op.Kind != "CopyFile" && op.Kind != "Copy" {
+		return nil
+	}
+	ps, e1 := treefs.Norm(op.P)
+	qs, e2 := treefs.Norm(op.Q)
+	if e1 || e2 || len(ps) == 0 || len(qs) == 0 || strings.Join(ps, "/") == strings.Join(qs, "/") {
+		return nil
+	}
+	src, dst := t.Lookup(ps), t.Lookup(qs)
+	if src == nil || dst == nil || src.Dir || dst.Dir {
+		return nil
+	}
+	a := t.Clone()
+	a.Lookup(qs).Data = src.Data
+	return a
 }
 
 func countCommits(h []treefs.Op) int {
@@ -410,6 +452,7 @@ func rootCause(hist []treefs.Op, ov, rm, r0 *treefs.Node, segs []string, state s
 		}
 		return false
 	}
+	var tainted []string
 	for i, o := range hist {
 		if o.Kind == "Commit" {
 			rmm = ovm.Clone()
@@ -436,13 +479,22 @@ func rootCause(hist []treefs.Op, ov, rm, r0 *treefs.Node, segs []string, state s
 					touches = true
 				}
 			}
+			// the source was removed through the cache - or is itself the product of such a copy
+			// (the wrongly accepted copy created nodes the overlay never had; copies of those inherit it)
+			srcBad := false
+			for _, rr := range append(append([]string{}, removedRemote...), tainted...) {
+				if under(o.P, rr) || under(rr, o.P) {
+					srcBad = true
+				}
+			}
+			if srcBad {
+				tainted = append(tainted, o.Q)
+			}
 			if !touches {
 				continue
 			}
-			for _, rr := range removedRemote {
-				if under(o.P, rr) || under(rr, o.P) {
-					return "copy-read-a-removed-remote-source"
-				}
+			if srcBad {
+				return "copy-read-a-removed-remote-source"
 			}
 			if o.Kind != "CopyFile" && pendingUnder(i, o.P) {
 				return "directory-copy-source-not-merged"
@@ -649,8 +701,20 @@ func classifyDiff(want, got map[string]string, hist []treefs.Op, r0 map[string]s
 					srcRemoved = true
 				}
 			}
+			if srcRemoved {
+				// what such a copy created is itself a source the overlay never had
+				removed[o.Q] = true
+			}
 			if how == "unexpected-on-remote" && srcRemoved && (under(p, o.Q) || under(o.Q, p)) {
 				return "copy-from-a-removed-remote-source-was-accepted", why
+			}
+			if how == "content-differs" && srcRemoved && under(p, o.Q) {
+				// the same root cause seen on a destination that already existed: the accepted copy
+				// overwrote it with the REMOTE's bytes of the removed source (and only then)
+				srcPath := o.P + strings.TrimPrefix(p, o.Q)
+				if stale, ok := r0[srcPath]; ok && got[p] == "file:"+stale {
+					return "copy-from-a-removed-remote-source-was-accepted", why
+				}
 			}
 			if how == "missing-on-remote" && under(p, o.Q) && o.Kind != "CopyFile" {
 				return "directory-copy-incomplete-on-remote", why
